@@ -420,7 +420,10 @@ class Interp:
             return self.call(f.func, list(f.args) + list(args), kw)
         if isinstance(f, Opaque):
             return self.reg.call_opaque(self, f, '__call__', list(args), kwargs)
-        from .api import OpaqueMethod, call_opaque_method
+        from .api import OpaqueMethod, call_opaque_method, Measure
+        if isinstance(f, Measure):
+            from . import mlist
+            return mlist.apply_measure(self, f, list(args))
         if isinstance(f, OpaqueMethod):
             return call_opaque_method(self, f.o, f.name, f.m, list(args), kwargs)
         if isinstance(f, _CtxFactory):
